@@ -3127,6 +3127,10 @@ void sm9_z256_modn_from_hash(sm9_z256_t h, const uint8_t Ha[40])
 	// (r // 2^320) = (r[5], r[6])
 	sm9_z256_mul(r, r + 5, SM9_Z256_N_MINUS_ONE);
 	sm9_z256_sub(h, z, r);
+	// the quotient estimate can be one short: reduce once more into [0, N-2]
+	if (sm9_z256_cmp(h, SM9_Z256_N_MINUS_ONE) >= 0) {
+		sm9_z256_sub(h, h, SM9_Z256_N_MINUS_ONE);
+	}
 
 	sm9_z256_modn_add(h, h, SM9_Z256_ONE);
 }
